@@ -31,7 +31,7 @@ REQUIRED_MONITORS = ["q_calc_positive_increasing", "linear", "gaussian_hankel_pa
 REQUIRED_BUCKETS = {"quick": ["grid:linear", "grid:log", "n:1", "n:2..9", "n:10..200", "gaussians:1", "gaussians:>1",
                               "acceptance:open", "acceptance:cut", "via:Gxi", "via:DirectModel", "wavelength:short",
                               "acceptance:on-data-tof", "acceptance:on-data-mono", "order:permuted",
-                              "via:DirectModel:data-edited-in-place"]}
+                              "via:DirectModel:data-edited-in-place", "grid:log-full-range"]}
 REQUIRED_BUCKETS["thorough"] = REQUIRED_BUCKETS["quick"]
 
 
@@ -59,6 +59,11 @@ def run_transform(case, rec):
     kind = "log" if (k // 3) % 2 else "linear"
     lo = float(10**rng.uniform(1.0, 3.0))
     hi = min(lo*float(10**rng.uniform(0.5, 2.5)), 1.0e5)
+    if k % 9 == 7 and n >= 10:
+        # the whole quantified range on a log grid, 100-200 points (the calculated q grid is then at its largest)
+        kind, n = "log", int(rng.integers(100, 201))
+        lo, hi = 10.0, 1.0e5
+        rec.bucket("grid:log-full-range")
     if n == 1:
         xi = np.array([float(10**rng.uniform(1.5, 4.5))])
     elif kind == "linear":
@@ -213,6 +218,12 @@ def run_direct(case, rec):
         # G - G(0) cancels, so rounding is relative to G(0) ~ max|G|
         rec.check("linear", core.close(G4, 3.0*G2, 1e-12, 1e-12*3*float(np.max(np.abs(G2)))),
                   {"via": "DirectModel scale x3", "max_abs_diff": float(np.max(np.abs(G4 - 3*G2)))})
+        # a later call that leaves out what an earlier call on the same calculator set
+        G6 = np.asarray(calc(rg=rg), float)
+        exact6 = exact_pair(xi, [1.0], [s])
+        rec.check("gaussian_hankel_pair", bool(np.all(np.abs(G6 - exact6) <= 1e-3*float(np.max(np.abs(exact6))))),
+                  {"via": "DirectModel called with rg only after calls that set scale and background", "rg": rg,
+                   "got": G6[:5], "exact_for_default_scale": exact6[:5]})
         rec.bucket("via:DirectModel")
         rec.set_shape(("direct", rep), True)
         # the spin-echo lengths of the same data object edited in place (same array object, same length), then a
